@@ -18,9 +18,12 @@ package state
 //@ iface ErrConflict.ConflictError
 //@   pure
 //@
+//@ fn isNotFound(e error) bool
 //@ func IsNotFoundError
 //@   props C01 C11
+//@   pure
 //@   ensures [nonnil] result ==> err != nil
+//@   ensures [def-class] result == isNotFound(err)
 //@ fn isOwnerConflict(e error) bool
 //@ fn isPhaseConflict(e error) bool
 //@ fn isConflict(e error) bool
